@@ -35,6 +35,17 @@ Proof.
   - unfold lengths_of. now rewrite map_length.
 Qed.
 
+Theorem dlba_roundtrip_g bs nmb vs :
+  legal_geometry bs nmb -> Forall short vs -> N.of_nat (length vs) < 2 ^ 64 ->
+  dlba_dec (dlba_enc_g bs nmb vs) = Some vs.
+Proof.
+  intros Hg Hs Hl. unfold dlba_dec, dlba_enc_g.
+  rewrite (dec_enc_g bs nmb Hg 32 (or_introl eq_refl)).
+  - rewrite <- (app_nil_r (concat vs)). apply cut_concat.
+  - now apply lengths_in_range.
+  - unfold lengths_of. now rewrite map_length.
+Qed.
+
 Lemma lcp_le a : forall b, (lcp a b <= length a)%nat /\ (lcp a b <= length b)%nat.
 Proof.
   induction a as [|x a IH]; intros [|y b]; cbn [lcp length]; try lia.
@@ -90,4 +101,62 @@ Proof.
     + unfold lengths_of. now rewrite map_length, suffixes_length.
   - now apply prefixes_in_range.
   - now rewrite map_length, prefixes_length.
+Qed.
+
+(** ... at any geometry of the two sections and with prefixes capped at any
+    length (a conforming writer need not share the longest common prefix) *)
+Lemma prefixes_c_length cap vs : forall prev, length (prefixes_c cap prev vs) = length vs.
+Proof. induction vs as [|v r IH]; intros prev; cbn [prefixes_c length]; [reflexivity|]. now rewrite IH. Qed.
+
+Lemma suffixes_c_length cap vs : forall prev, length (suffixes_c cap prev vs) = length vs.
+Proof. induction vs as [|v r IH]; intros prev; cbn [suffixes_c length]; [reflexivity|]. now rewrite IH. Qed.
+
+Lemma capped_prefix cap a b :
+  firstn (Nat.min cap (lcp a b)) a = firstn (Nat.min cap (lcp a b)) b.
+Proof.
+  pose proof (lcp_prefix a b) as H.
+  rewrite <- (Nat.min_id (Nat.min cap (lcp a b))) at 1 2.
+  replace (Nat.min (Nat.min cap (lcp a b)) (Nat.min cap (lcp a b)))
+    with (Nat.min (Nat.min cap (lcp a b)) (lcp a b)) by lia.
+  rewrite <- !firstn_firstn. now rewrite H.
+Qed.
+
+Lemma dba_rebuild_c_ok cap vs : forall prev,
+  dba_rebuild prev (map Z.of_nat (prefixes_c cap prev vs)) (suffixes_c cap prev vs) = Some vs.
+Proof.
+  induction vs as [|v r IH]; intros prev; cbn [prefixes_c suffixes_c map dba_rebuild]; [reflexivity|].
+  destruct (Z.ltb_spec (Z.of_nat (Nat.min cap (lcp prev v))) 0); [lia|].
+  rewrite Nat2Z.id. destruct (lcp_le prev v) as [H1 H2].
+  destruct (Nat.ltb_spec (length prev) (Nat.min cap (lcp prev v))); [lia|].
+  rewrite capped_prefix, firstn_skipn, IH. reflexivity.
+Qed.
+
+Lemma suffixes_c_short cap vs : forall prev, Forall short vs -> Forall short (suffixes_c cap prev vs).
+Proof.
+  induction vs as [|v r IH]; intros prev H; cbn [suffixes_c]; constructor.
+  - inversion H; subst. unfold short in *. rewrite skipn_length. lia.
+  - inversion H; subst. now apply IH.
+Qed.
+
+Lemma prefixes_c_in_range cap vs : forall prev, Forall short vs ->
+  Forall (in_sint 32) (map Z.of_nat (prefixes_c cap prev vs)).
+Proof.
+  induction vs as [|v r IH]; intros prev H; cbn [prefixes_c map]; constructor.
+  - inversion H; subst. destruct (lcp_le prev v). unfold short in *. unfold in_sint. cbn. lia.
+  - inversion H; subst. now apply IH.
+Qed.
+
+Theorem dba_roundtrip_g cap bs1 nmb1 bs2 nmb2 vs :
+  legal_geometry bs1 nmb1 -> legal_geometry bs2 nmb2 ->
+  Forall short vs -> N.of_nat (length vs) < 2 ^ 64 ->
+  dba_dec (dba_enc_g cap bs1 nmb1 bs2 nmb2 vs) = Some vs.
+Proof.
+  intros Hg1 Hg2 Hs Hl. unfold dba_dec, dba_enc_g.
+  rewrite (dec_enc_g bs1 nmb1 Hg1 32 (or_introl eq_refl)).
+  - rewrite (dec_enc_g bs2 nmb2 Hg2 32 (or_introl eq_refl)).
+    + rewrite <- (app_nil_r (concat _)), cut_concat. apply dba_rebuild_c_ok.
+    + apply lengths_in_range. now apply suffixes_c_short.
+    + unfold lengths_of. now rewrite map_length, suffixes_c_length.
+  - now apply prefixes_c_in_range.
+  - now rewrite map_length, prefixes_c_length.
 Qed.
